@@ -3,7 +3,6 @@ package lhsim
 import (
 	"fmt"
 	"sort"
-	"testing/synctest"
 	"time"
 
 	"github.com/orbs-network/lean-helix-go/services/electiontrigger"
@@ -190,7 +189,7 @@ func (w *World) releaseYield(i int) { w.releaseYieldRec(w.heldYields()[i]) }
 func (w *World) releaseYields() {
 	for len(w.yields) > 0 {
 		w.releaseYieldRec(w.heldYields()[0])
-		synctest.Wait()
+		simWait()
 	}
 }
 
@@ -212,7 +211,7 @@ func (w *World) settleYields(keep func(y *yieldRec) bool) {
 			continue
 		}
 		w.releaseYieldRec(next)
-		synctest.Wait()
+		simWait()
 	}
 }
 
@@ -261,7 +260,11 @@ func (t *RealTrigger) RegisterOnElection(h primitives.BlockHeight, v primitives.
 		w.ev("register n%d h%d v%d (real timer, timeout %v)", t.n.idx, h, v, d)
 		w.onRegister(t.n, x.h, x.v)
 	}
+	// no preemption between the wrapper's bookkeeping and the library's own arming: the harness' knowledge of the next
+	// expiry (and of the old timer being stopped) must match the real timer
+	w.ys.noPark++
 	t.inner.RegisterOnElection(h, v, cb)
+	w.ys.noPark--
 }
 
 func (t *RealTrigger) markStopped() {
@@ -281,7 +284,9 @@ func (t *RealTrigger) Stop() {
 		t.n.w.ev("timer-stop n%d", t.n.idx)
 	}
 	t.markStopped()
+	t.n.w.ys.noPark++
 	t.inner.Stop()
+	t.n.w.ys.noPark--
 }
 
 func (w *World) syncClock() {
@@ -304,7 +309,10 @@ func (w *World) sleep(d time.Duration) {
 		return
 	}
 	w.slept += d
+	spinInWait.Store(true) // the fake clock moves only when everything else is durably blocked
 	time.Sleep(d)
+	spinInWait.Store(false)
+	spinWaits.Add(1)
 }
 
 // the bubble's clock starts in the year 2000 and is a 64-bit nanosecond count: keep well inside its range
